@@ -1,36 +1,26 @@
 /-
 C02 — the Nerode oracle is exact; the quotient built by `minimize` keeps the language, is
 deterministic and reduced.
+
+The spec vocabulary (`RightLang`, `Nerode`, `IsNerodePartition`, `Reduced`) is defined in
+`Pfl/Proofs/FAMin.lean` (same names and meaning), next to the helper lemmas.
 -/
 import Pfl.Model.Minimize
 import Pfl.Props.C04_Oracle
 import Pfl.Props.C04_Words
+import Pfl.Proofs.FAMin
 namespace Pfl
 namespace ENFA
 variable {σ κ : Type} [DecidableEq σ] [DecidableEq κ]
 
-/-- right language of a state; `none` is the implicit trash state -/
-def RightLang (A : ENFA σ) : Option σ → List Nat → Prop
-  | none, _ => False
-  | some p, w => ∃ f ∈ A.finals, A.Run p w f
-
-/-- Nerode equivalence of two states -/
-def Nerode (A : ENFA σ) (p q : Option σ) : Prop := ∀ w, A.RightLang p w ↔ A.RightLang q w
-
 theorem sameRight_iff (A : ENFA σ) (hA : A.WF) (fuel : Nat) (p q : Option σ)
     (hp : ∀ x, p = some x → x ∈ A.states) (hq : ∀ x, q = some x → x ∈ A.states) (b : Bool)
-    (h : A.sameRight fuel p q = some b) : b = true ↔ A.Nerode p q := by
-  sorry
-
-/-- `gs` lists the Nerode classes of `none :: states` -/
-structure IsNerodePartition (A : ENFA σ) (gs : List (List (Option σ))) : Prop where
-  cover : ∀ x, (∃ g ∈ gs, x ∈ g) ↔ (x = none ∨ ∃ q ∈ A.states, x = some q)
-  same : ∀ g ∈ gs, ∀ x ∈ g, ∀ y ∈ g, A.Nerode x y
-  sep : ∀ g ∈ gs, ∀ g' ∈ gs, ∀ x ∈ g, ∀ y ∈ g', A.Nerode x y → g = g'
+    (h : A.sameRight fuel p q = some b) : b = true ↔ A.Nerode p q :=
+  sameRight_iff' A hA fuel p q hp hq b h
 
 theorem nerodeGroups_spec (A : ENFA σ) (hA : A.WF) (fuel : Nat) (gs : List (List (Option σ)))
-    (h : A.nerodeGroups fuel = some gs) : A.IsNerodePartition gs := by
-  sorry
+    (h : A.nerodeGroups fuel = some gs) : A.IsNerodePartition gs :=
+  nerodeGroups_spec' A hA fuel gs h
 
 /-- the quotient by the Nerode partition (restricted to reachable, co-reachable states) keeps
 the language, for any injective naming of the blocks -/
@@ -38,30 +28,38 @@ theorem minimizeOf_lang (A : ENFA σ) (hA : A.WF) (hd : A.Deterministic) (he : A
     (gs : List (List (Option σ))) (hgs : A.IsNerodePartition gs) (key : List (Option σ) → κ)
     (hkey : ∀ g ∈ gs, ∀ g' ∈ gs, key g = key g' → g = g') (emptyKey : κ) (w : List Nat) :
     (A.minimizeOf gs key emptyKey).Lang w ↔ A.Lang w := by
-  sorry
+  rcases minimizeOf_cases A hA hd gs key emptyKey with ⟨h, hemp⟩ | ⟨h, hst⟩
+  · rw [h]
+    exact ⟨fun hl => absurd hl (emptyAut_lang emptyKey w), fun hl => absurd hl (hemp w)⟩
+  · rw [h]
+    exact quotOf_lang A hA hd he _ (groupKey_nameOK A gs hgs key hkey) hst w
 
 theorem minimizeOf_shape (A : ENFA σ) (hA : A.WF) (hd : A.Deterministic) (he : A.EpsFree)
     (gs : List (List (Option σ))) (hgs : A.IsNerodePartition gs) (key : List (Option σ) → κ)
     (hkey : ∀ g ∈ gs, ∀ g' ∈ gs, key g = key g' → g = g') (emptyKey : κ) :
     (A.minimizeOf gs key emptyKey).Deterministic ∧ (A.minimizeOf gs key emptyKey).EpsFree ∧
     (A.minimizeOf gs key emptyKey).WF := by
-  sorry
-
-/-- every state reachable, any two different states distinguishable -/
-def Reduced (M : ENFA κ) : Prop :=
-  (∀ k ∈ M.states, ∃ s ∈ M.starts, ∃ w, M.Run s w k) ∧
-  (∀ k ∈ M.states, ∀ k' ∈ M.states, M.Nerode (some k) (some k') → k = k')
+  rcases minimizeOf_cases A hA hd gs key emptyKey with ⟨h, _⟩ | ⟨h, _⟩
+  · rw [h]
+    exact emptyAut_shape emptyKey
+  · rw [h]
+    exact ⟨quotOf_deterministic A hA hd he _ (groupKey_nameOK A gs hgs key hkey),
+      quotOf_epsFree A hA _, ofParts_wf _ _ _⟩
 
 theorem minimizeOf_reduced (A : ENFA σ) (hA : A.WF) (hd : A.Deterministic) (he : A.EpsFree)
     (gs : List (List (Option σ))) (hgs : A.IsNerodePartition gs) (key : List (Option σ) → κ)
     (hkey : ∀ g ∈ gs, ∀ g' ∈ gs, key g = key g' → g = g') (emptyKey : κ) :
     (A.minimizeOf gs key emptyKey).Reduced := by
-  sorry
+  rcases minimizeOf_cases A hA hd gs key emptyKey with ⟨h, _⟩ | ⟨h, hst⟩
+  · rw [h]
+    exact emptyAut_reduced emptyKey
+  · rw [h]
+    exact quotOf_reduced A hA hd he _ (groupKey_nameOK A gs hgs key hkey) hst
 
 /-- the reducedness oracle decides `Reduced` -/
 theorem isReduced_iff (M : ENFA σ) (hM : M.WF) (fuel : Nat) (b : Bool)
-    (h : M.isReduced fuel = some b) : b = true ↔ M.Reduced := by
-  sorry
+    (h : M.isReduced fuel = some b) : b = true ↔ M.Reduced :=
+  isReduced_iff' M hM fuel b h
 
 end ENFA
 end Pfl
